@@ -96,6 +96,24 @@ PROPS = {
         'level_text': 'Composition only: Verus proves on the real wrapper bodies that each one-shot function returns the named composition (sha_256d = sha256 o sha256, hash_160 = ripemd160 o sha256), that Hash::hmac keys the MAC with its SECOND argument and feeds the first as message for all six instantiations, that the streaming adapters absorb by concatenation (so any chunking gives the same digest), finalise to the composition of what was absorbed, reverse exactly when the flag is set, and reset to empty, and that PBKDF2 dispatches to the PRF named by the enum, returns output_length bytes and stores the salt. The primitives themselves are uninterpreted.',
         'level_note': TB + ' Cryptographic primitives are assumed, not verified.',
     },
+    'C16': {
+        'units': {
+            'interp': ['*'],
+        },
+        'only_kinds': ['precondition', 'overflow', 'div0', 'shift', 'index', 'unreachable', 'decreases', 'type_invariant', 'invariant'],
+        'only_labels': r'(is_an_error|error_leaves|remaining_nodes|progress|none_only_at_the_end|ok_means_every_node|out_of_range)',
+        'kani': [
+            {'harness': 'push_number_all_i64', 'validates': 'assumed contract of ScriptStack::push_number: Err exactly outside [-(2^31-1), 2^31-1], else the minimal script number; all i64'},
+            {'harness': 'pop_number_all_short_elements', 'validates': 'assumed contract of ScriptStack::pop_number: every top element of 0..=5 bytes (longer elements take the same `len > 4` error path)'},
+        ],
+        'assumptions': ['num-bigint: division / remainder panic on a zero divisor, shifts panic on a negative count (shim preconditions); BigInt arithmetic is mathematical',
+                        'Vec::remove / insert / swap / split_at / index panic conditions per std (shim / vstd preconditions)',
+                        'NOT covered: native stack depth (the recursive re-nesting and serialisation of deeply nested conditionals), allocator failure; CHECKSIG / CHECKMULTISIG bodies are verified in unit interp_sig (C15) and appear here only through their call',
+                        'stepping == running: run_impl is literally the iteration of next_impl (its loop body contains nothing else that touches the state); this is structural, not a stated obligation'],
+        'design_ref': 'DESIGN.md section 4 C14/C16',
+        'level_text': 'Verus proves on the real interpreter bodies (match_opcode with all of its ~100 arms, match_script_bit, next_impl, run_impl, the eight script-stack primitives, to_bigint) with no precondition on script or stack contents: no arithmetic underflow / overflow, no out-of-range index / remove / insert / swap / split, no unwrap of None, no division by zero or negative shift, no unreachable/todo; each successful step strictly decreases the number of script nodes not yet executed (IF splicing included), so stepping and running terminate; after an Err the main and alt stacks and the script are unchanged; None is returned only at the end of the script.',
+        'level_note': TB,
+    },
     'C20': {
         'units': {
             'aes_glue': ['*'],
@@ -194,7 +212,6 @@ PROPS = {
 NOT_CLAIMED = {
     'C14': 'not reached yet',
     'C15': 'not reached yet',
-    'C16': 'not reached yet',
     'C17': 'not reached yet',
     'C18': 'not applicable to contract-based verification: the behaviour lives in serde derive expansions and in serde_json/ciborium, there is no function body in /repo to put a contract on (DESIGN.md section 5)',
     'C19': 'not reached yet',
